@@ -49,6 +49,8 @@ Definition op_of_sx (s : sx) : option op :=
   | SList [SInt 32; SInt slot] => Some (IterNext slot)
   | SList [SInt 33; SInt slot] => Some (IterRemove slot)
   | SList [SInt 34; SInt slot; SInt v] => Some (IterSetValue slot v)
+  | SList [SInt 35; SInt kind; SInt slot; SInt acc; SInt k] => Some (IterNewAt kind slot acc k)
+  | SList [SInt 27; SInt i; SInt k; SInt v] => Some (ForeachPut i k v)
   | SList [SInt 40] => Some Probe
   | SList [SInt 41; SInt acc; SInt k; SInt v] => Some (SetValueAt acc k v)
   | SList [SInt 42; SInt a1; SInt k1; SInt a2; SInt k2] => Some (EntryEquals a1 k1 a2 k2)
@@ -67,10 +69,10 @@ Definition cat (o : op) : N :=
   | Keys | Values => 7
   | InOrder | Foreach => 8
   | PreOrder | PostOrder => 9
-  | IterNew _ _ | IterHasNext _ | IterNext _ => 10
+  | IterNew _ _ | IterHasNext _ | IterNext _ | IterNewAt _ _ _ _ => 10
   | IterRemove _ => 11
   | Probe => 12
-  | ForeachRemove _ _ => 14
+  | ForeachRemove _ _ | ForeachPut _ _ _ => 14
   | SetValueAt _ _ _ | EntryEquals _ _ _ _ | IterSetValue _ _ => 16
   end%N.
 
